@@ -1,16 +1,23 @@
 #!/usr/bin/env python3
-'''compare a junit xml with /root/.vp/BASELINE.json stable_pass'''
+'''compare junit xml file(s) with /root/.vp/BASELINE.json stable_pass; later files override earlier ones (serial re-runs of load-sensitive tests).
+usage: cmp_baseline.py junit.xml [retry.xml ...] [--files]   (--files: print the test files that contain a not-passing stable test)'''
 import json, sys, xml.etree.ElementTree as ET
 base = json.load(open('/root/.vp/BASELINE.json'))
 stable = set(base['stable_pass'])
-t = ET.parse(sys.argv[1])
+files = [a for a in sys.argv[1:] if not a.startswith('--')]
 res = {}
-for tc in t.iter('testcase'):
-    name = f"{tc.get('classname')}::{tc.get('name')}"
-    bad = any(c.tag in ('failure', 'error') for c in tc)
-    skipped = any(c.tag == 'skipped' for c in tc)
-    res[name] = 'fail' if bad else 'skip' if skipped else 'pass'
+for fn in files:
+    try: t = ET.parse(fn)
+    except Exception: continue
+    for tc in t.iter('testcase'):
+        name = f"{tc.get('classname')}::{tc.get('name')}"
+        bad = any(c.tag in ('failure', 'error') for c in tc)
+        skipped = any(c.tag == 'skipped' for c in tc)
+        res[name] = 'fail' if bad else 'skip' if skipped else 'pass'
 missing = [n for n in stable if n not in res]
-notpass = [n for n in stable if res.get(n) not in ('pass',)  and n in res]
+notpass = [n for n in stable if res.get(n) not in ('pass',) and n in res]
+if '--files' in sys.argv:
+    print(' '.join(sorted({'tests/' + n.split('.')[1] + '.py' for n in notpass + missing if n.startswith('tests.')})))
+    sys.exit(0)
 print('stable', len(stable), 'results', len(res), 'missing', len(missing), 'not passing', len(notpass))
 for n in (missing[:10] + notpass[:20]): print('  ', n, res.get(n))
